@@ -779,9 +779,15 @@ pub fn fill_report(rep: &mut Report, out: &SweepOut, label: &str) {
 pub fn finalize(rep: &mut Report) {
     let caps = rep.coverage.get("caps_hit").and_then(|v| v.as_array()).map(|a| a.len()).unwrap_or(0);
     rep.set("exhaustive", json!(caps == 0));
-    rep.assumptions.push("virtual child processes behave like real ones w.r.t. spawn/kill/status (bound by binbox replays)".into());
-    rep.assumptions.push("the harness replicates the ten wiring lines of main.rs (channels, engine::run, terminate)".into());
-    rep.assumptions.push("send_to_requesters fan-out order is explored as ascending and descending only".into());
+    for a in [
+        "virtual child processes behave like real ones w.r.t. spawn/kill/status (bound by binbox replays)",
+        "the harness replicates the ten wiring lines of main.rs (channels, engine::run, terminate)",
+        "send_to_requesters fan-out order is explored as ascending and descending only",
+    ] {
+        if !rep.assumptions.iter().any(|x| x == a) {
+            rep.assumptions.push(a.into());
+        }
+    }
 }
 
 fn deadline(rep: &Report, quick_s: u64, thorough_s: u64) -> Option<Instant> {
@@ -1408,6 +1414,18 @@ pub fn check_c20(rep: &mut Report) {
             }
         }
     }
+    // two dependencies of the inner aggregate out of date at the same time (two notifications)
+    for top in if rep.thorough() { vec![Kind::B, Kind::S] } else { vec![Kind::S] } {
+        let mut c = cfg("watch: target over an aggregate of two builds, both rebuilt", vec![t("x", top, &["g"]), t("g", Kind::A, &["y1", "y2"]), t("y1", Kind::B, &[]), t("y2", Kind::B, &[])], &["x"]);
+        c.watch = true;
+        c.notify_budget = 2;
+        c.targets[2].has_input = true;
+        c.targets[3].has_input = true;
+        c.coarse = true; // handler-level steps: the orders of notices and acknowledgements are what matters here
+        let f = flatten(&c).unwrap();
+        lhs.push(c);
+        rhs.push(f);
+    }
     let mk2 = |c: &Cfg| {
         let watch = c.watch;
         Checks { step: Box::new(c01_step), terminal: Box::new(move |s, _| if watch { observation_coarse(s) } else { observation(s) }) }
@@ -1432,7 +1450,7 @@ pub fn check_c20(rep: &mut Report) {
             );
         }
     }
-    fill_report(rep, &out_l2, "inner aggregates kept (one-shot and watch with one notification)");
+    fill_report(rep, &out_l2, "inner aggregates kept (one-shot and watch with one notification; two notifications below an aggregate of two builds)");
     fill_report(rep, &out_r2, "inner aggregates replaced by their dependencies");
     rep.set("inner_aggregate_pairs_compared", json!(compared2));
     finalize(rep);
@@ -1733,6 +1751,28 @@ pub fn c03_terminal(sys: &Sys, ctx: &mut Ctx) {
             ctx.violation(format!("no-record-although-the-script-succeeded: {}", if signalled { "signal while the state was computed or written" } else { "a sibling failed meanwhile" }), format!("{}: the script of {} ended with status 0 and was not cancelled, zinoma has exited, yet {} is missing or empty: the next invocation runs the script again on an untouched tree\nhistory: {:?}", cfg.name, t.name, rec.display(), sys.hist(&t.name)));
         }
     }
+}
+
+/// C04 on the phase configurations: a one-shot invocation ends, whatever the moment of the build cycle at which a
+/// sibling's failure (or a signal) reaches a target
+pub fn check_phases_c04(rep: &mut Report) {
+    let mk = move |_: &Cfg| Checks {
+        step: Box::new(noop_step),
+        terminal: Box::new(move |s, c| {
+            if !s.cfg.watch {
+                c.count("terminal states of one-shot phase configurations");
+                if !s.main_done() {
+                    let (fp, detail) = describe_stuck(s);
+                    c.violation(format!("one-shot run never ends (termination met a build outside its script phase): {}", fp), format!("{}\n{}{}", s.cfg.name, detail, observation(s)));
+                }
+            }
+            observation(s)
+        }),
+    };
+    let dl = deadline(rep, 150, 1800);
+    let out = sweep(phase_cfgs(rep.thorough()).into_iter().filter(|c| !c.watch).collect(), &mk, dl, 2_000_000);
+    fill_report(rep, &out, "real incremental runner, every phase of the build cycle a parking point: the run ends after a sibling's failure or a signal at every state");
+    finalize(rep);
 }
 
 pub fn check_phases_c03(rep: &mut Report) {
